@@ -275,6 +275,11 @@ def enc(v, ids, out, top=True):
         out.append(["s", Q(v)])
     elif v is None:
         out.append("none")
+    elif v is Ellipsis:
+        out.append("el")
+    elif isinstance(v, slice):
+        out.append("sl")
+        enc((v.start, v.stop, v.step), ids, out, False)
     elif isinstance(v, (dict, OrderedDict)):
         out.append("dict")
         enc(tuple(v.items()), ids, out, False)
@@ -316,6 +321,8 @@ def enc_key_elem(v, ids, out):
         out.append(["s", Q(v)])
     elif v is None:
         out.append("none")
+    elif v is Ellipsis:
+        out.append("el")
     elif isinstance(v, tuple):
         out.append("lp")
         for x in v:
@@ -362,6 +369,18 @@ T = "funsor.terms."
 D = "funsor.domains.ArrayType"
 
 
+GS_POOL = [("rev", "slice(None, None, -1)"), ("rev0", "slice(0, None, -1)"), ("s3", "slice(None, 3)"),
+           ("s3n", "slice(None, 3, None)"), ("s03", "slice(0, 3)"), ("s031", "slice(0, 3, 1)"), ("s14", "slice(1, 4)"),
+           ("st2", "slice(None, None, 2)"), ("s0st2", "slice(0, None, 2)"), ("s1st2", "slice(1, None, 2)"),
+           ("full", "slice(None)"), ("full4", "slice(None, 4)"), ("full1", "slice(None, None, 1)"),
+           ("i2", "2"), ("i2t", "(2,)"), ("s23", "slice(2, 3)"), ("c1", "(slice(None), 1)"),
+           ("c01", "(slice(0, None), 1)"), ("el_rev0", "(Ellipsis, slice(0, None, -1))"),
+           ("el_rev", "(Ellipsis, slice(None, None, -1))"), ("el", "Ellipsis"), ("nn", "(None, 2)"),
+           ("n0", "(None, slice(0, None))")]
+GS_TERMS = ["rev", "rev0", "s3", "s03", "st2", "s0st2", "i2", "s23", "c1", "el_rev0", "el_rev", "full", "full4"]
+GS_IDX = {nm: eval(idx) for nm, idx in GS_POOL}
+
+
 def _op_recipes():
     """Parametrised ops whose parameters are distinct but hash-equal (hash(-1) == hash(-2)) or ==-equal
     (1 == 1.0 == True, 0 == -0.0 == False), in positional and keyword forms, alive at the same time, plus
@@ -391,6 +410,21 @@ def _op_recipes():
             out.append(Recipe(f"u{nm}_{suf}", T + "Unary", f"(H['{nm}_{suf}'], H['x3'])", needs=(f"{nm}_{suf}", "x3"),
                               interps=("reflect", "lazy"), pk=("reflect", "lazy"), ri=("reflect",),
                               core=(nm == "sum")))
+    # GetsliceOp (its own key: the index tuple with slices unpacked to (start, stop, step) as given): indices
+    # that are ==-distinct but "canonically similar" alive together, and the lazy terms v[idx] on them
+    for nm, idx in GS_POOL:
+        out.append(Recipe(f"gs_{nm}", "funsor.ops.GetsliceOp", f"({idx},)", expr=f"ops.GetsliceOp({idx})",
+                          mcls="GetsliceMeta", dyn=(nm != "el"), core=nm in ("rev", "rev0"),
+                          pk=("reflect",) if nm in ("rev", "rev0", "c1", "el_rev0") else (),
+                          blob=nm in ("rev", "rev0", "s3", "s03", "i2")))
+    out.append(Recipe("gs_revk", "funsor.ops.GetsliceOp", "(slice(None, None, -1),)",
+                      expr="ops.GetsliceOp(index=slice(None, None, -1))", mcls="GetsliceMeta", dyn=True))
+    # (Reals[4,6]: none of the sliced shapes is a dynamic domain of the pool, so they are all pinned)
+    out.append(Recipe("vg", T + "Variable", "('vg', Reals[4, 6])"))
+    for nm in GS_TERMS:
+        out.append(Recipe(f"ugs_{nm}", T + "Unary", f"(H['gs_{nm}'], H['vg'])", needs=(f"gs_{nm}", "vg"),
+                          interps=("reflect", "lazy"), pk=("reflect", "lazy") if nm in ("rev", "rev0") else (),
+                          ri=("reflect",) if nm in ("rev", "rev0") else ()))
     for suf, args, expr in [("m1", "(-1,)", "ops.UnsqueezeOp(-1)"), ("m2", "(-2,)", "ops.UnsqueezeOp(dim=-2)"),
                             ("0", "(0,)", "ops.UnsqueezeOp(0)"), ("0f", "(False,)", "ops.UnsqueezeOp(False)")]:
         out.append(Recipe(f"unsq_{suf}", "funsor.ops.UnsqueezeOp", args, expr=expr, mcls="OpMeta", dyn=True))
@@ -412,7 +446,7 @@ RECIPES = [
     Recipe("ib", T + "Variable", "('i__BOUND_9', Bint[2])"),
     Recipe("y", T + "Variable", "('y', Reals[3])"),
     Recipe("n1", T + "Number", "(1,)", core=True, pk=("eager",), blob=True),
-    Recipe("n1f", T + "Number", "(1.0,)", core=True),
+    Recipe("n1f", T + "Number", "(1.0,)"),
     Recipe("n1t", T + "Number", "(True, 'real')"),
     Recipe("n1n", T + "Number", "(1, None)"),
     Recipe("nz", T + "Number", "(0.0,)"),
@@ -469,7 +503,7 @@ RECIPES = [
     Recipe("vr5", T + "Variable", "('v', H['r5'])", needs=("r5",)),
     Recipe("pd", "funsor.domains.ProductDomain", "(Real, H['d5'])", expr="Product[Real, H['d5']]",
            mcls="Product", needs=("d5",), cyc=True, dyn=True),
-    Recipe("g1", "funsor.ops.GetitemOp", "(1,)", expr="ops.GetitemOp(1)", mcls="OpMeta", core=True,
+    Recipe("g1", "funsor.ops.GetitemOp", "(1,)", expr="ops.GetitemOp(1)", mcls="OpMeta",
            dyn=True, blob=True, pk=("reflect",)),
     Recipe("g1k", "funsor.ops.GetitemOp", "(1,)", expr="ops.GetitemOp(offset=1)", mcls="OpMeta", dyn=True),
     Recipe("g2", "funsor.ops.GetitemOp", "(2,)", expr="ops.GetitemOp(2)", mcls="OpMeta", dyn=True),
@@ -499,7 +533,7 @@ RECIPES = [
     Recipe("vbs51", T + "Variable", "('xs', H['bs51'])", needs=("bs51",), pk=("reflect", "eager")),
     Recipe("vbs213", T + "Variable", "('xs', H['bs213'])", needs=("bs213",), pk=("lazy",)),
     Recipe("vr512", T + "Variable", "('xs', H['r512'])", needs=("r512",), pk=("reflect", "eager")),
-    Recipe("tvb", T + "Tuple", "((H['vbs23'], H['x']),)", needs=("vbs23", "x"), pk=("reflect", "lazy")),
+    # (no Tuple over a dynamically-typed term: its output Product[...] is interned behind the model's back)
     Recipe("t0d2", "funsor.tensor.Tensor", "(A[0], (), 2)", needs=("A0",), interps=("reflect", "lazy"),
            pk=("reflect",)),
     Recipe("zb", T + "Variable", "('zb', Bint[3])", blob=True, pk=("reflect",)),
@@ -627,11 +661,28 @@ def _collect_pins(w):
     bound defaults), never off the real table key, whose shape is the code's business."""
     pins = []
     dyn_objs = {id(w.H[r.name]) for r in RECIPES if r.dyn and r.name in w.H}
+    # a "dynamic" domain that some term of the pool creates on its own (as its output / an input domain, not
+    # through its arguments) cannot be tracked by the model: pin it, its recipe then simply hits the pin
+    def closure(r, acc):
+        for n in r.needs:
+            if n in RBY and n not in acc:
+                acc.add(n)
+                closure(RBY[n], acc)
+        return acc
+    for r in RECIPES:
+        h = w.H.get(r.name)
+        if isinstance(h, Funsor):
+            via_args = {id(w.H[n]) for n in closure(r, set()) if n in w.H}
+            for dom in [h.output] + list(h.inputs.values()):
+                if id(dom) in dyn_objs and id(dom) not in via_args and isinstance(dom, ArrayType):
+                    dyn_objs.discard(id(dom))
+                    w.implicit_pins = getattr(w, "implicit_pins", []) + [str(dom)]
+    del h
     for dom in list(ArrayType._type_cache.values()):
         if id(dom) not in dyn_objs:
             pins.append(("funsor.domains.ArrayType", "Array", (dom.dtype, dom.shape), dom))
     for dom in list(ProductDomain._type_cache.values()):
-        if id(dom) not in dyn_objs:
+        if id(dom) not in dyn_objs and not any(id(a) in dyn_objs for a in dom.__args__):
             pins.append(("funsor.domains.ProductDomain", "Product", tuple(dom.__args__), dom))
     seen = set()
     cands = [getattr(ops, nm) for nm in PINNED_OPS]
@@ -643,7 +694,7 @@ def _collect_pins(w):
             continue
         seen.add(id(op))
         c = type(op)
-        mc = "ReshapeMeta" if type(c).__name__ == "ReshapeMeta" and op.defaults else "OpMeta"
+        mc = type(c).__name__ if type(c).__name__ in ("ReshapeMeta", "GetsliceMeta") and op.defaults else "OpMeta"
         pins.append((f"{c.__module__}.{c.__qualname__}", mc, tuple(op.defaults.values()), op))
     del cands
     return [(PIN_SLOT0 + k, t, m, a, o) for k, (t, m, a, o) in enumerate(pins)]
@@ -967,6 +1018,10 @@ def stale_request(r, args, obj, w):
     if isinstance(obj, ops.Op):
         have = tuple(obj.defaults.values())
         have = tuple(tuple(h) if isinstance(h, list) else h for h in have)
+        if r.mcls == "GetsliceMeta":
+            # GetsliceMeta keys x[i] and x[(i,)] alike (the index is made a tuple): compare in that form
+            have = tuple(h if isinstance(h, tuple) else (h,) for h in have)
+            args = tuple(a if isinstance(a, tuple) else (a,) for a in args)
         if have != tuple(args):
             return f"{r.expr} returned an op whose bound parameters are {have!r}, requested {tuple(args)!r}"
     elif isinstance(obj, Tensor) and r.needs and r.needs[0] in ARR_SLOTS:
@@ -975,6 +1030,10 @@ def stale_request(r, args, obj, w):
     elif isinstance(obj, Unary) and r.cls.endswith("Unary") and r.expr is None:
         if obj.op is not args[0] or obj.arg is not args[1]:
             return f"{r.name}: Unary(op, arg) returned a term with op {obj.op!r} / another arg, requested {args[0]!r}"
+        if r.name.startswith("ugs_") and r.name[4:] in GS_IDX:
+            want = np.empty((4, 6))[GS_IDX[r.name[4:]]].shape
+            if tuple(obj.output.shape) != want:
+                return f"{r.name}: v[{GS_IDX[r.name[4:]]}] has shape {tuple(obj.output.shape)}, numpy says {want}"
     return None
 
 
@@ -1109,7 +1168,7 @@ def oracle_violation(w, expect_same):
 
 ALIASES = [("n1", "n1f"), ("n1", "n1t"), ("n1", "n1n"), ("nz", "nnz"), ("n1b3", "n1b3f"), ("t0", "t0t"),
            ("t0n", "t0nn"), ("sl", "sl2"), ("sl", "sl3"), ("d5", "d5a"), ("r5", "r5a"),
-           ("g1", "g1k"), ("bs23", "bs23a"), ("sum_m1", "sum_m1k"), ("sum_m2", "sum_m2k"), ("sum_1", "sum_1f"), ("sum_1", "sum_1t"),
+           ("g1", "g1k"), ("bs23", "bs23a"), ("gs_rev", "gs_revk"), ("gs_s3", "gs_s3n"), ("gs_i2", "gs_i2t"), ("sum_m1", "sum_m1k"), ("sum_m2", "sum_m2k"), ("sum_1", "sum_1f"), ("sum_1", "sum_1t"),
            ("sum_1", "sum_1z"), ("sum_0", "sum_0f"), ("sum_0", "sum_0n"), ("sum_m1kd", "sum_m1kd1"),
            ("amax_m2", "amax_m2k"), ("prod_m2", "prod_m2k"), ("argmax_m2", "argmax_m2k"), ("rs_23", "rs_23f"),
            ("unsq_0", "unsq_0f")]
@@ -1120,7 +1179,11 @@ DISTINCT = [("n1", "n1b3"), ("x", "xb"), ("t0", "t0b"), ("t0", "t0n"), ("sl", "s
             ("uargmax_m1", "uargmax_m2"), ("unsq_m1", "unsq_m2"), ("stk_m1", "stk_m2"), ("rs_m1", "rs_m2"),
             ("gm1", "gm2"), ("rs_23", "rs_32"), ("sum_m1", "sum_m1kd"), ("sum_m2", "sum_m3"), ("sum_1", "sum_0"),
             ("sum_m1", "amax_m1"), ("bs23", "bs7"), ("bs51", "d5"), ("bs213", "bs23"), ("r7", "r71"),
-            ("r7", "bs7"), ("vbs51", "v5")]
+            ("r7", "bs7"), ("vbs51", "v5"), ("gs_rev", "gs_rev0"), ("ugs_rev", "ugs_rev0"), ("gs_s3", "gs_s03"),
+            ("gs_s03", "gs_s031"), ("ugs_s3", "ugs_s03"), ("gs_st2", "gs_s0st2"), ("ugs_st2", "ugs_s0st2"),
+            ("gs_full", "gs_full4"), ("gs_full", "gs_full1"), ("ugs_full", "ugs_full4"), ("gs_i2", "gs_s23"),
+            ("ugs_i2", "ugs_s23"), ("gs_c1", "gs_c01"), ("gs_el_rev", "gs_el_rev0"),
+            ("ugs_el_rev", "ugs_el_rev0"), ("gs_nn", "gs_n0"), ("gs_full", "gs_el")]
 VALUE_REF = {"usum": np.sum, "uamax": np.amax, "uprod": np.prod, "uargmax": np.argmax}
 VALUE_DATA = np.arange(24, dtype=np.float64).reshape(2, 3, 4) / 7.0
 
@@ -1128,6 +1191,15 @@ VALUE_DATA = np.arange(24, dtype=np.float64).reshape(2, 3, 4) / 7.0
 def lazy_value_wrong(name, obj):
     """the lazy reduction term, once its variable is bound to data, must compute *its own* axis"""
     head, _, suf = name.partition("_")
+    if head == "ugs" and suf in GS_IDX:
+        data = np.arange(24.0).reshape(4, 6)
+        want = data[GS_IDX[suf]]
+        if tuple(obj.output.shape) != want.shape:
+            return f"{name}: v[{GS_IDX[suf]}] has shape {tuple(obj.output.shape)}, numpy says {want.shape}"
+        got = obj(vg=Tensor(data))
+        if not isinstance(got, Tensor) or got.data.shape != want.shape or not np.array_equal(got.data, want):
+            return f"{name}: v[{GS_IDX[suf]}] evaluates to another slice ({obj})"
+        return None
     if head not in VALUE_REF or suf not in ("m1", "m2"):
         return None
     axis = -1 if suf == "m1" else -2
